@@ -213,6 +213,33 @@ func runC14(c *core.Ctx) {
 			rm.Set(fields, texts...)
 		}
 		joined := strings.Join(texts, ",")
+		if n > 0 && rng.Intn(4) == 0 {
+			// a call that adds nothing (optional rules computed at run time and found empty), before or after the
+			// real ones: the field's rules are still the ones written, give or take an empty item
+			rm2 := valid.NewRule()
+			emptyFirst := rng.Intn(2) == 0
+			if emptyFirst {
+				rm2.Set(fields)
+			}
+			rm2.Set(fields, texts...)
+			if !emptyFirst {
+				rm2.Set(fields)
+			}
+			res.Count("sets_with_an_empty_call")
+			for _, f := range strings.Split(fields, ",") {
+				ps, pan := safeSplit(rm2.Get(f))
+				kept := []string{}
+				for _, p := range ps {
+					if p != "" {
+						kept = append(kept, p)
+					}
+				}
+				if pan != "" || strings.Join(kept, "\x00") != strings.Join(texts, "\x00") {
+					res.Violate("C14|rm-set-empty-call", fmt.Sprintf("RM.Set(%q, %q...) with an empty Set(%q) %s it: Get(%q)=%q splits into %q, want the rules written", fields, texts, fields, map[bool]string{true: "before", false: "after"}[emptyFirst], f, rm2.Get(f), kept), texts)
+					ok = false
+				}
+			}
+		}
 		for _, f := range strings.Split(fields, ",") {
 			if g := rm.Get(f); g != joined {
 				res.Violate("C14|rm-set-get", fmt.Sprintf("RM.Set(%q, %q...).Get(%q)=%q want %q", fields, texts, f, g, joined), texts)
